@@ -92,20 +92,17 @@ Definition f_algorithms_models_mleme_constraint_model : cmd :=
   (GetRng "rng" ESeed).
 Definition f_algorithms_modularity_community_louvain : cmd :=
   (Seq (GetRng "rng" ESeed)
-  (Choice (Seq (Choice (Choice (Call "algorithms.modularity.community_louvain" ENone)
+  (Choice (Choice (Choice (Choice (Loop (Seq (Loop (Choice (Seq (DrawLocal "rng")
+                    (Loop (Choice (Choice (Call "utils._verif.emit" ENone)
+                          Skip)
+                        Skip)))
+                  Skip))
+              (Choice (Choice (Call "utils._verif.emit" ENone)
+                  Skip)
+                Skip)))
           Skip)
         Skip)
-      (Choice (Choice (Choice (Loop (Seq (Loop (Choice (Seq (DrawLocal "rng")
-                      (Loop (Choice (Choice (Call "utils._verif.emit" ENone)
-                            Skip)
-                          Skip)))
-                    Skip))
-                (Choice (Choice (Call "utils._verif.emit" ENone)
-                    Skip)
-                  Skip)))
-            Skip)
-          Skip)
-        Skip))
+      Skip)
     Skip)).
 Definition f_algorithms_modularity_modularity_finetune_dir : cmd :=
   (Seq (GetRng "rng" ESeed)
